@@ -233,6 +233,11 @@ def ref_eval(node, env):
     return _feval(node, env, strict=True)
 
 
+# values of the named quantities: zeros, ordinary magnitudes, and tiny / huge ones (a compartment holding 1e-9 people is as
+# real a number as one holding 1e6)
+VALUES = [0.0, 0.0, 0.0, 1.0, 2.5, 0.3, 7.0, 1.0, 2.5, 0.3, 7.0, 1e-9, 3e-12, 4e-9, 1e6]
+
+
 def gen_expr(rng, names, depth):
     if depth == 0 or rng.random() < 0.25:
         u = rng.random()
@@ -438,11 +443,11 @@ def run_case(case):
                     env = {}
                     for d in sorted(exp_deps):
                         if mode == "scalar":
-                            env[d] = float(rng.choice([0.0, 0.0, 1.0, 2.5, 0.3, 7.0]))
+                            env[d] = float(rng.choice(VALUES))
                         elif mode == "zeros":
                             env[d] = np.zeros(3) if rng.random() < 0.7 else np.array([0.0, 1.0, 0.0])
                         else:
-                            env[d] = rng.choice([0.0, 0.0, 1.0, 2.5, 0.3, 7.0], size=3)
+                            env[d] = rng.choice(VALUES, size=3)
                     info = {}
                     try:
                         exp = _feval(tree, env, strict=True, info=info)
